@@ -80,10 +80,19 @@ def full_run(files, lang, settings=None, extra_args=(), subcmd="run", want=()):
                          [getattr(s, "stmt_id", None) for s in sources], [getattr(s, "stmt_id", None) for s in sinks]))
         return flows
     ta.TaintAnalysis.find_flows = find_flows
+    # the flows lian finally reports (printed and written to taint_data_flow.json): what the user sees
+    reported = []
+    orig_report = ta.TaintAnalysis.print_and_write_flows
+
+    def print_and_write_flows(self, flows):
+        reported.extend((f.source_stmt_id, f.sink_stmt_id) for f in flows)
+        return orig_report(self, flows)
+    ta.TaintAnalysis.print_and_write_flows = print_and_write_flows
     try:
         r = runner.run_lian(files, lang, subcmd, settings=settings, extra_args=list(extra_args), quiet=False)
     finally:
         ta.TaintAnalysis.find_flows = orig
+        ta.TaintAnalysis.print_and_write_flows = orig_report
     out = {"status": r.status, "exc": r.exc, "traceback": r.traceback, "output_tail": r.output[-600:]}
     if r.status != "ok":
         return out
@@ -113,7 +122,8 @@ def full_run(files, lang, settings=None, extra_args=(), subcmd="run", want=()):
     for ep, fl, srcs, snks in recorded:
         for s, k in fl:
             flows.add((where(s), where(k)))
-    out["flows"] = sorted(flows)
+    out["flows_found"] = sorted(flows)                                         # union over entry points of what find_flows returned
+    out["flows"] = sorted({(where(s), where(k)) for s, k in reported})         # what was reported in the end
     out["flows_by_entry"] = sorted((mname(ep), sorted((where(s), where(k)) for s, k in fl)) for ep, fl, _, _ in recorded if fl)
     out["sources_seen"] = sorted({where(s) for _, _, srcs, _ in recorded for s in srcs if s is not None})
     out["sinks_seen"] = sorted({where(s) for _, _, _, snks in recorded for s in snks if s is not None})
